@@ -20,6 +20,8 @@ pub trait G: Any {
     fn len(&self) -> usize;
     fn is_empty(&self) -> bool;
     fn clone_box(&self) -> Box<dyn G>;
+    /// `self.clone_from(src)` (Clone::clone_from), src of the same N
+    fn clone_from_dyn(&mut self, src: &dyn G) -> Result<()>;
     fn save(&self, p: &Path) -> Result<usize>;
     fn load_same(&self, p: &Path) -> Result<Box<dyn G>>;
     fn slice(&self, v: usize) -> Result<Box<dyn G>>;
@@ -72,6 +74,14 @@ impl<const N: usize> G for Sodg<N> {
     }
     fn clone_box(&self) -> Box<dyn G> {
         Box::new(Clone::clone(self))
+    }
+    fn clone_from_dyn(&mut self, src: &dyn G) -> Result<()> {
+        let other = src
+            .as_any()
+            .downcast_ref::<Sodg<N>>()
+            .ok_or_else(|| anyhow!("harness: clone_from of graphs with different N"))?;
+        Clone::clone_from(self, other);
+        Ok(())
     }
     fn save(&self, p: &Path) -> Result<usize> {
         Sodg::save(self, p)
